@@ -223,6 +223,27 @@ func c18(args []string) {
 			snap, snapIDs = r, ids(r)
 		}
 	}
+	// 2a. capacities far above the proxy's 20 (the capacity is the constructor's argument, whatever it is): filled to
+	// just below, exactly to, and beyond the capacity
+	for _, n := range []int{257, 1001, 1500, 4097} {
+		if concOnly || (!thorough && n == 1500) {
+			continue
+		}
+		q := circularQueue.NewCircularQueue(n)
+		watchHeld()
+		emitQ(w, qEv{Ev: "new", N: n})
+		id := 0
+		for _, upTo := range []int{n - 1, n, n + 1, n + 130} {
+			from := id + 1
+			for id < upTo {
+				id++
+				q.Add(qmsg(id))
+			}
+			emitQ(w, qEv{Ev: "addn", From: from, To: id, Len: held(q)})
+			r := q.GetMessages()
+			emitQ(w, qEv{Ev: "get", Res: ids(r), Len: len(r)})
+		}
+	}
 	// 2b. queues that have already seen very many additions (the exported index starts near a power of two)
 	for _, start64 := range []int64{1<<16 - 3, 1<<15 - 2, 1<<31 - 3, 1<<32 - 3} {
 		start := int(start64)
